@@ -97,7 +97,7 @@ Print Assumptions C03_lazy_eq_eager.
    counts getTargetCount reports (mask erases them: a pending alias reports (0, 0)). *)
 Theorem C03_lazy_eq_eager_ops : forall lines k ops,
   exists p, eager_init k lines = Some p /\
-            map mask (run (lazy_init k lines) ops) = map mask (run p ops).
+            map mask (run_ops (lazy_init k lines) ops) = map mask (run_ops p ops).
 Proof. exact lazy_eq_eager_ops. Qed.
 Print Assumptions C03_lazy_eq_eager_ops.
 
@@ -142,7 +142,7 @@ Print Assumptions C03_ex_lazy.
 
 (* parser[alias] first, then a lookup at distance 1: the expansion must have happened (k = 1) *)
 Example C03_ex_getitem_then_lookup :
-  run (lazy_init 1 ex_lines) [OTargetCount; OGetItem; OLookup [84;65;65]; OTargetCount] =
+  run_ops (lazy_init 1 ex_lines) [OTargetCount; OGetItem; OLookup [84;65;65]; OTargetCount] =
   [Counts 0 0;
    Items [([65;65;65], 1); ([65;65;84], 7); ([84;84;84], 3); ([65;78;65], 4); ([71;71], 5)];
    Ans (Some (1, [65;65;65], 1%nat));
